@@ -85,7 +85,7 @@ pub(crate) fn pb(bytes: &[u8]) -> String {
 //     lets `s` seconds pass, `c` closes, `r` resets. Observation: the canonicalised
 //     `IdentifyEvent` the user would see, or `noevent`; ` #local <peer id>` and ` #addrs <table>`
 //     (what the third-party multiaddr parser says about every address of the first frame) follow.
-// `idin local=<j> peer=<i> conn=<0|1> ep=<addr> pv=<hex> agent=<hex|none> protos=<list>
+// `idin local=<j> peer=<i> conn=<0|1|2> ep=<addr> pv=<hex> agent=<hex|none> protos=<list>
 //       listen=<list> public=<list> cap=<n> <step>...`
 //     our answer on an inbound identify substream: `t:<s>` time passes, `rd:<n>` the remote reads
 //     `n` bytes. Observation: `sent <all bytes the remote got> #local <peer id>`.
@@ -363,7 +363,7 @@ impl Rig {
         let a = kv(t);
         let spec = node_spec(&a)?;
         let remote = peer(a.get("peer")?.parse().ok()?);
-        let conn = a.get("conn").copied().unwrap_or("1") == "1";
+        let conn: u8 = a.get("conn").copied().unwrap_or("1").parse().ok()?;
         let ep = addr(a.get("ep").copied().unwrap_or("-"))?;
         let cap: usize = a.get("cap").copied().unwrap_or("1048576").parse().ok()?;
         let steps: Vec<&str> = t.iter().copied().filter(|s| !s.contains('=')).collect();
@@ -392,7 +392,7 @@ impl Rig {
         let a = kv(t);
         let spec = node_spec(&a)?;
         let remote_index: u64 = a.get("peer")?.parse().ok()?;
-        let conn = a.get("conn").copied().unwrap_or("1") == "1";
+        let conn: u8 = a.get("conn").copied().unwrap_or("1").parse().ok()?;
         let ep = addr(a.get("ep").copied().unwrap_or("-"))?;
         let split: usize = a.get("split").copied().unwrap_or("0").parse().ok()?;
         // node B: the peer that asked; its key pair is number `peer` (1..=250)
@@ -456,14 +456,22 @@ async fn run_outbound(node: &mut Node, remote: PeerId, steps: &[&str]) -> String
 async fn run_inbound(
     node: &mut Node,
     remote: PeerId,
-    conn: bool,
+    conn: u8,
     ep: Multiaddr,
     cap: usize,
     steps: &[&str],
 ) -> (Vec<u8>, bool) {
-    if conn {
+    // `conn`: 0 = the peer is not connected, 1 = connected, 2 = was connected, connection closed
+    if conn >= 1 {
         // (the substream request identify makes on a new connection is left unanswered)
         let _ = node.establish(remote, ep).await;
+    }
+    if conn >= 2 {
+        let _ = node
+            .tx
+            .send(InnerTransportEvent::ConnectionClosed { peer: remote, connection: ConnectionId::from(0usize) })
+            .await;
+        Node::settle().await;
     }
     let permit = Permit::new(node.conn_tx.clone());
     let ctl = node.open(remote, Direction::Inbound, permit, cap).await;
